@@ -366,4 +366,5 @@ func main() {
 	writeIfChanged(filepath.Join(outDir, "ErrFmt.lean"), genErrFmt(repoRoot))         // C06 (extract/errfmt.go, extract/flatfacts.go): never exits
 	writeIfChanged(filepath.Join(outDir, "Validation.lean"), genValidation(repoRoot)) // C05 (extract/validation.go): never exits
 	writeIfChanged(filepath.Join(outDir, "Proxies.lean"), genProxies(repoRoot))       // C18 (extract/proxies.go): never exits
+	writeIfChanged(filepath.Join(outDir, "CtxHelpers.lean"), genCtxHelpers(repoRoot)) // C19 (extract/ctxhelpers.go): never exits
 }
